@@ -1,3 +1,4 @@
+mod byron;
 mod c42;
 mod c43;
 mod db;
